@@ -3,6 +3,7 @@ package vc
 import (
 	"fmt"
 	"go/constant"
+	"go/token"
 	"go/types"
 	"math/big"
 	"strings"
@@ -760,13 +761,19 @@ func (env *Env) importedPackage(name string) *types.Package {
 			}
 		}
 	}
-	// any known package with that name (assumed contracts refer to dependencies directly)
+	// any known package with that name (assumed contracts refer to dependencies directly); several packages may
+	// share a name (litefs and litefs-go are both `litefs`): prefer the module's own package, then the smallest
+	// path, so that the choice does not depend on map iteration order
+	if p := env.vc.E.pkgByName[name]; p != nil && p.Types != nil {
+		return p.Types
+	}
+	var best *types.Package
 	for _, tp := range env.vc.E.allPkgs {
-		if tp.Name() == name {
-			return tp
+		if tp.Name() == name && (best == nil || tp.Path() < best.Path()) {
+			best = tp
 		}
 	}
-	return nil
+	return best
 }
 
 func (env *Env) ghostFieldFor(t types.Type, name string) (GhostField, string, bool) {
@@ -1220,6 +1227,18 @@ func (env *Env) evalCall(x *ECall) (Val, error) {
 			return Val{}, err
 		}
 		ref := vc.materialize(Val{Addr: a})
+		// typed atomics (sync/atomic.Uint32, Int64, Bool ...): same plain-cell class as the model of Load/Store
+		if nt, ok := a.Typ.(*types.Named); ok && nt.Obj().Pkg() != nil && nt.Obj().Pkg().Path() == "sync/atomic" && nt.Obj().Name() != "Value" {
+			for i := 0; i < nt.NumMethods(); i++ {
+				if m := nt.Method(i); m.Name() == "Load" {
+					elem := m.Type().(*types.Signature).Results().At(0).Type()
+					ct := types.NewNamed(types.NewTypeName(token.NoPos, nil, "atomic_"+vc.E.typeStr(elem), nil), elem.Underlying(), nil)
+					v := vc.loadAddr(env.st, &Addr{Kind: aCell, Typ: ct, Ref: ref})
+					v.Typ = elem
+					return v, nil
+				}
+			}
+		}
 		v := vc.loadAddr(env.st, &Addr{Kind: aCell, Typ: emptyIface, Ref: ref})
 		return v, nil
 	case "as":
